@@ -53,10 +53,10 @@ theorem refund_loop1 (g : MInfoG) (keys acc : List Acc) (effs : List GEff) :
   | nil => simp [RefundPayingCoin.loop1]
   | cons k ks ih => simp [RefundPayingCoin.loop1, ih]
 
-theorem alloc_loop2 (g : MInfoG) (d : Denom) (src : Addr) (L : List Acc) (io : Acc → Option IOC) (effs : List GEff)
+theorem alloc_loop2 (a : Auction) (g : MInfoG) (L : List Acc) (io : Acc → Option IOC) (effs : List GEff)
     (hnd : L.Nodup) (hv : ∀ u ∈ L, validAcc u = true) (hio : ∀ u ∈ L, io u = none) :
-    ∃ io', AllocateSellingCoin.loop2 g d src L io effs = Loop.done (io', effs) ∧
-      ∀ u, io' u = if u ∈ L ∧ (g.alloc u).getD 0 ≠ 0 then some (iocOf src d g.alloc u) else io u := by
+    ∃ io', AllocateSellingCoin.loop2 a g L io effs = Loop.done (io', effs) ∧
+      ∀ u, io' u = if u ∈ L ∧ (g.alloc u).getD 0 ≠ 0 then some (iocOf (.sell a.id) (Go.sellingCoin a).denom g.alloc u) else io u := by
   induction L generalizing io with
   | nil => exact ⟨io, by simp [AllocateSellingCoin.loop2]⟩
   | cons k ks ih =>
@@ -69,7 +69,7 @@ theorem alloc_loop2 (g : MInfoG) (d : Denom) (src : Addr) (L : List Acc) (io : A
     · obtain ⟨io', h1, h2⟩ := ih io hnd' (fun u hu => hv u (by simp [hu])) (fun u hu => hio u (by simp [hu]))
       refine ⟨io', by simp [hz, h1], ?_⟩
       intro u; rw [h2 u]; grind
-    · obtain ⟨io', h1, h2⟩ := ih (Go.mapSet io k (iocOf src d g.alloc k)) hnd' (fun u hu => hv u (by simp [hu]))
+    · obtain ⟨io', h1, h2⟩ := ih (Go.mapSet io k (iocOf (.sell a.id) (Go.sellingCoin a).denom g.alloc k)) hnd' (fun u hu => hv u (by simp [hu]))
         (fun u hu => by
           have : u ≠ k := by rintro rfl; exact hk hu
           simp [Go.mapSet, this, hio u (by simp [hu])])
@@ -91,10 +91,10 @@ theorem alloc_loop3 (src : Addr) (d : Denom) (m : Acc → Option Int) (io : Acc 
     · simp [hz] at hk; simp [hk, hz, ih']
     · simp [hz] at hk; simp [hk, hz, ih', iocOf]
 
-theorem refund_loop2 (g : MInfoG) (d : Denom) (src : Addr) (L : List Acc) (io : Acc → Option IOC) (effs : List GEff)
+theorem refund_loop2 (a : Auction) (g : MInfoG) (L : List Acc) (io : Acc → Option IOC) (effs : List GEff)
     (hnd : L.Nodup) (hv : ∀ u ∈ L, validAcc u = true) (hio : ∀ u ∈ L, io u = none) :
-    ∃ io', RefundPayingCoin.loop2 g d src L io effs = Loop.done (io', effs) ∧
-      ∀ u, io' u = if u ∈ L ∧ (g.refund u).getD 0 ≠ 0 then some (iocOf src d g.refund u) else io u := by
+    ∃ io', RefundPayingCoin.loop2 a g L io effs = Loop.done (io', effs) ∧
+      ∀ u, io' u = if u ∈ L ∧ (g.refund u).getD 0 ≠ 0 then some (iocOf (.pay a.id) a.payDenom g.refund u) else io u := by
   induction L generalizing io with
   | nil => exact ⟨io, by simp [RefundPayingCoin.loop2]⟩
   | cons k ks ih =>
@@ -107,7 +107,7 @@ theorem refund_loop2 (g : MInfoG) (d : Denom) (src : Addr) (L : List Acc) (io : 
     · obtain ⟨io', h1, h2⟩ := ih io hnd' (fun u hu => hv u (by simp [hu])) (fun u hu => hio u (by simp [hu]))
       refine ⟨io', by simp [hz, h1], ?_⟩
       intro u; rw [h2 u]; grind
-    · obtain ⟨io', h1, h2⟩ := ih (Go.mapSet io k (iocOf src d g.refund k)) hnd' (fun u hu => hv u (by simp [hu]))
+    · obtain ⟨io', h1, h2⟩ := ih (Go.mapSet io k (iocOf (.pay a.id) a.payDenom g.refund k)) hnd' (fun u hu => hv u (by simp [hu]))
         (fun u hu => by
           have : u ≠ k := by rintro rfl; exact hk hu
           simp [Go.mapSet, this, hio u (by simp [hu])])
@@ -145,7 +145,7 @@ theorem tie_AllocateSellingCoin_plan (a : Auction) (g : MInfoG) (keys : List Acc
               payoutEffs (.sell a.id) a.sellDenom keys g.alloc) := by
   unfold Gen.AllocateSellingCoin
   simp only [alloc_loop1, List.nil_append]
-  obtain ⟨io', h1, h2⟩ := alloc_loop2 g (Go.sellingCoin a).denom (.sell a.id) (Go.sortAcc keys) (fun _ => none)
+  obtain ⟨io', h1, h2⟩ := alloc_loop2 a g (Go.sortAcc keys) (fun _ => none)
     [⟨GName.beforeSellingCoinsAllocated, [.int (a.id : Int), .amap g.alloc, .amap g.refund]⟩]
     (sortAcc_nodup hnd) (sortAcc_valid hv) (fun _ _ => rfl)
   simp only [h1]
@@ -159,7 +159,7 @@ theorem tie_RefundPayingCoin_plan (a : Auction) (g : MInfoG) (keys : List Acc) (
     Gen.RefundPayingCoin a g keys = (false, payoutEffs (.pay a.id) a.payDenom keys g.refund) := by
   unfold Gen.RefundPayingCoin
   simp only [refund_loop1, List.nil_append]
-  obtain ⟨io', h1, h2⟩ := refund_loop2 g a.payDenom (.pay a.id) (Go.sortAcc keys) (fun _ => none)
+  obtain ⟨io', h1, h2⟩ := refund_loop2 a g (Go.sortAcc keys) (fun _ => none)
     [] (sortAcc_nodup hnd) (sortAcc_valid hv) (fun _ _ => rfl)
   simp only [h1]
   rw [refund_loop3 (.pay a.id) a.payDenom g.refund io']
